@@ -195,6 +195,7 @@ func eqKVs(a, b []kv) bool {
 // ---------------------------------------------------------------- one script on the real implementation
 
 type world struct {
+	dead    bool // the structure is no longer a tree (cycle): nothing more is executed on it
 	wrapper bool
 	trees   []*btree.BTree
 	refs    []*ref
@@ -237,6 +238,13 @@ func errKind(err error) string {
 // reference (clone isolation both ways), structure and length of the written handle are right.
 func (w *world) afterWrite(h int, op string) {
 	for j, t := range w.trees {
+		if err := t.VerifCheck(); err != nil && errKind(err) == "err:cycle" {
+			w.dead = true
+			w.hit("btree:VerifCheck:cycle", fmt.Sprintf("after %s on handle %d, handle %d: %v", op, h, j, err))
+			return
+		}
+	}
+	for j, t := range w.trees {
 		got := allItems(t)
 		if !eqKVs(got, w.refs[j].items) {
 			if j == h {
@@ -259,6 +267,11 @@ func (w *world) afterWrite(h int, op string) {
 
 func (w *world) afterWrapperWrite(op string, r *ref) {
 	in := w.w.VerifInner()
+	if err := in.VerifCheck(); err != nil && errKind(err) == "err:cycle" {
+		w.dead = true
+		w.hit("tree:VerifCheck:cycle", fmt.Sprintf("after %s: %v", op, err))
+		return
+	}
 	got := allItems(in)
 	if !eqKVs(got, r.items) {
 		w.hit("tree:"+op+":contents-differ-from-sorted-set", fmt.Sprintf("after %s: tree=%s sorted-set=%s", op, showKVs(got), showKVs(r.items)))
@@ -328,6 +341,9 @@ func runScan(t *btree.BTree, name string, p, p2 int, cont func(kv) bool) []kv {
 }
 
 func (w *world) line(line string) string {
+	if w.dead {
+		return "aborted"
+	}
 	f := strings.Fields(line)
 	if len(f) == 0 {
 		return "bad-op"
